@@ -67,6 +67,11 @@ theorem written_range_reads_back (d : Bytes) (o : Nat) (w : Bytes) (hw : w ≠ [
     (hdis : ∀ x ∈ ws, x.2 ≠ [] ∧ (x.1 + x.2.length ≤ o ∨ o + w.length ≤ x.1)) :
     slice (writeAll (writeBytes d o w) ws) o w.length = w := range_survives_disjoint_writes d o w hw ws hdis
 
+/-- length side of the same oracle: after any sequence of writes, in any order, overlapping or not, the file
+    reaches at least the end of every non-empty write - a READ after the completed WRITEs cannot be shorter -/
+theorem completed_writes_are_covered (d : Bytes) (ws : List (Nat × Bytes)) (x : Nat × Bytes) (hx : x ∈ ws) (hne : x.2 ≠ []) :
+    x.1 + x.2.length ≤ (writeAll d ws).length := writeAll_covers_every_write d ws x hx hne
+
 /-- two WRITEs of the same range: the serial order decides, the later payload is what stays -/
 theorem same_range_last_writer_wins (d : Bytes) (o : Nat) (w1 w2 : Bytes) (h1 : w1 ≠ []) (h2 : w2 ≠ [])
     (hl : w1.length = w2.length) : writeBytes (writeBytes d o w1) o w2 = writeBytes d o w2 :=
